@@ -19,10 +19,10 @@ EXPLANATION = (
     "reaches tf with rows equal to the twin's (term equality, fixed-step families) and dense-output end slopes equal to f at the "
     "recorded states; reset() restores (t0, y0), no events, empty dense output, dt0, nfev 0, status 0, and the next run equals the twin's.")
 ASSUMPTIONS = [
+    "event-function faults: the real handle_events runs with differential_system.root_finder replaced by the bracket_root contract stub; the event function raises at its k-th evaluation",
     "real arithmetic; |tf-t0| <= N*|dt0|, 1/64 <= |dt0| <= 256, |t0|,|tf| <= 64",
     "rhs = uninterpreted function of (t, y) with syntactic congruence (same argument terms => same value) shared by the faulting system and its fault-free twin",
     "adaptive family: ctrl contract stub (<= 1 rejection); implicit family: verdict_root contract stub",
-    "event-function faults are exercised with the event machinery of C07-C09 (not here)",
 ]
 BOUNDS = {"quick": dict(N=2, faults="1 (every rhs call index, callback invocations 1..3)"),
           "thorough": dict(N=3, faults="1 and 2 successive faults")}
@@ -53,6 +53,11 @@ def instances(tier):
         for j in ((1, 2) if quick else (1, 2, 3)):
             bb = dict(b, wall_s=35) if quick and fam == "dopri45" else b
             out.append(dict(id="callback-fault-%s-j%d" % (fam, j), family=fam, N=2, where="callback", k=j, exc="RuntimeError", budget=bb))
+    for fam in (("euler",) if quick else ("euler", "rk4", "sympl_euler")):
+        for k in ((1, 2, 5, 9, 10, 14) if quick else tuple(range(1, 20))):
+            for dense in (True, False):
+                out.append(dict(id="event-fault-%s-k%02d-%s" % (fam, k, "dense" if dense else "nodense"), family=fam, N=2, where="event", k=k, exc="RuntimeError",
+                                dense=dense, budget=b))
     if not quick:
         for fam in ("euler", "rk4", "sympl_euler"):
             for k in (2, 3, 5):
@@ -97,6 +102,8 @@ def scenario(c, inst):
     from desolver.exception_types import FailedIntegration
     if c.symbolic:
         c.ackermann = False
+    if inst["where"] == "event":
+        return _event_fault(c, inst)
     t0, tf, dt0 = c.real("t0"), c.real("tf"), c.real("dt0")
     span, adt = spans.input_assumptions(c, inst, t0, tf, dt0)
     fam = inst["family"]
@@ -241,3 +248,79 @@ def scenario(c, inst):
                 st5, r5 = run(A.integrate, callback=[spans.cap_callback(c, cap, kind)])
                 c.check("c12.run_after_reset_equals_fresh_run", st5 == "ok" and len(A.t) == nB and _rows_equal(c, A, B, min(len(A.t), nB)),
                         info=dict(st=st5, nA=len(A.t), nB=nB))
+
+
+def _event_fault(c, inst):
+    """the event function raises at its k-th evaluation inside the REAL handle_events (root finder stubbed)"""
+    import desolver.differential_system as ds
+    from desolver.exception_types import FailedIntegration
+    t0, tf, dt0 = c.real("t0"), c.real("tf"), c.real("dt0")
+    span, adt = spans.input_assumptions(c, inst, t0, tf, dt0)
+    fam = inst["family"]
+    method, shape, kind = spans.FAMILIES[fam]
+    dense = inst.get("dense", True)
+    rhsA = FreshRhs(c, shape, name="f", mode="uf")
+    st, built = run(spans.build_system, c, inst, t0, tf, dt0, dense, rhsA)
+    if st != "ok":
+        c.check("c12.constructs", False, info=repr(built))
+        return
+    A, _, logA = built
+    exc = _mkexc(inst["exc"])
+    state = dict(n=0, off=False)
+
+    def ev(t, y, **kw):
+        state["n"] += 1
+        if state["n"] == inst["k"] and not state["off"]:
+            raise exc
+        return t - (t0 + tf) * 0.5
+    ev.is_terminal = False
+    ev.direction = 0
+    stub_calls = []
+
+    def root_stub(f, bounds, tol=None, verbose=False, return_interval=False, accepts_mask=False):
+        lo, hi = bounds
+        lam = c.real("lam%d" % len(stub_calls))
+        c.assume(lam >= 0)
+        c.assume(lam <= 1)
+        stub_calls.append(lam)
+        ok = bool(c.real("succ%d" % (len(stub_calls) - 1)) > 0)
+        return c.array([lo + lam * (hi - lo)]), np.array([ok], dtype=bool)
+    cap = inst["N"] + 4
+    backward = bool(tf - t0 < 0)
+    with patched(ds, "root_finder", root_stub):
+        st, r = _run_catching(A.integrate, events=[ev], callback=[spans.cap_callback(c, cap, kind)])
+    if state["n"] < inst["k"]:
+        c.note("outcome", "run ended before the crash point")
+        return
+    c.case()
+    c.note("rows_at_fault", len(A.t))
+    c.check("c12.event.raises_FailedIntegration_with_cause", st == "exc" and isinstance(r, FailedIntegration) and r.__cause__ is exc,
+            info=dict(st=st, r=repr(r), cause=repr(getattr(r, "__cause__", None))))
+    c.check("c12.event.status_reports_failure", "failed" in A.integration_status.lower() and not A.success)
+    nA = len(A.t)
+    s = -1 if backward else 1
+    c.check("c12.event.rows_paired_and_monotone", len(A.t) == len(A.y) and c.all([c.eq(A.t[0], t0)] + [c.lt(0, s * (A.t[i + 1] - A.t[i])) for i in range(nA - 1)]))
+    c.check("c12.event.recorded_events_lie_in_recorded_range", c.all([c.le(0, s * (A.t[-1] - e.t) + 64 * spans.EPS64 * 64, 64) for e in A.events]),
+            info=dict(events=len(A.events), rows=nA))
+    if dense:
+        sol = A.sol
+        pieces = 0 if sol is None or sol.t_eval is None else len(sol.t_eval)
+        c.check("c12.event.dense_output_one_piece_per_recorded_step", pieces == nA - 1, info=dict(pieces=pieces, rows=nA))
+    # resume without the fault
+    state["off"] = True
+    with patched(ds, "root_finder", root_stub):
+        st3, r3 = _run_catching(A.integrate, events=[ev], callback=[spans.cap_callback(c, cap, kind)])
+    if st3 != "ok":
+        cause = getattr(r3, "__cause__", None)
+        if not isinstance(cause, StepCap):
+            c.check("c12.event.resume_reaches_target", False, info=repr(r3) + " / " + repr(cause))
+        return
+    c.check("c12.event.resume_monotone_to_target", c.all([c.lt(0, s * (A.t[i + 1] - A.t[i])) for i in range(len(A.t) - 1)] +
+                                                         [c.le(absval(c, A.t[-1] - tf), 64 * spans.EPS64 * 64)]))
+    if dense:
+        sol = A.sol
+        pieces = 0 if sol is None or sol.t_eval is None else len(sol.t_eval)
+        c.check("c12.event.resume_dense_output_one_piece_per_step", pieces == len(A.t) - 1, info=dict(pieces=pieces, rows=len(A.t)))
+        if pieces == len(A.t) - 1 and pieces > 0:
+            its = list(sol.y_interpolants)[::-1] if backward else list(sol.y_interpolants)
+            c.check("c12.event.resume_dense_pieces_contiguous", c.all([c.all([c.eq(its[i].t0, A.t[i]), c.eq(its[i].t1, A.t[i + 1])]) for i in range(pieces)]))
